@@ -63,6 +63,10 @@ CHECKS = {
    text="for every generated struct/exception of the corpus (kitchen sink with defaults of every kind + generated documents) under 4 protocols: encode(T::default()) reference-decodes to the defaults evaluated from the IDL by the harness; decode(empty struct) equals T::default() whenever it succeeds",
    note="enumerates all struct types of the corpus (exhaustive for the corpus, the corpus itself is generated); known finding struct-literal-default-ignores-member-defaults lives in a side document",
    tech="generated corpus + independent default evaluator; differential oracle"),
+ "C14": dict(cat="exploration",
+   text="documents of G_thrift with identifiers from the hostile pool (Rust keywords, case-conversion collisions, underscores, mixed case) and from the plain pool, plus the kitchen sinks, are built by pilota-build in a child process under builder configurations drawn from {single, split} x {keep_unknown_fields} x {change_case} x {ignore_unused + touch} (all 16 for every tenth document and for the kitchen sinks) and the output is type-checked with rustc against the current pilota runtime; failures are grouped by signature and minimised",
+   note="six known-finding classes (recursive unions, literal conversion gaps, defaults on annotated types, prelude-name shadowing, btree + double, const/newtype name collision) are excluded from the main generator by construction and exercised by one side stream each; protobuf documents are covered once the protobuf model exists",
+   tech=PBT + " over IDL documents; oracle: builder child exit status + rustc type-check"),
 }
 ORDER = sorted(CHECKS)
 checks = []
